@@ -31,6 +31,10 @@ TSpec == TInit /\ [][TNext]_tvars
 \* the numeric verdicts recorded for this plan (vs numpy.fft, forward∘backward = N x, repeat
 \* call identical, wrongly shaped input rejected) are part of the accepted behaviour
 NumericOK == phase # "none" => /\ Rec.num_ok /\ Rec.roundtrip_ok /\ Rec.repeat_ok /\ Rec.reject_ok
+\* the wrapper is a function of the VALUES it is given (spec/ValueSemantics.tla): witness histories of that specification
+\* (call / caller overwrites its array in place / results held across later calls) were replayed on this plan and every
+\* held result stayed the DFT of the content it was requested for
+ValueSemanticsOK == phase # "none" => Rec.vs_ok
 \* advertised numpy shapes: product is what the wrapper moves, batch axis where it says
 ShapesAdvertised == phase # "none" =>
     LET c == Rec.cfg
